@@ -87,6 +87,12 @@ func ProcessSchedPart(run *report.Run, st *Setup, n int, kinds map[string]bool) 
 		pf.MinTargets, pf.MaxTargets, pf.SleepMs, pf.EdgeProb = 6, 14, 60, 30
 		pf.NoCache = true
 		s := spec.Gen(r, pf)
+		// directory outputs that hold nothing but sub-directories at their top level
+		for k, t := range s.Targets {
+			if k%2 == 0 && !t.HasTag("no-cache") {
+				t.Outs = append(t.Outs, spec.Out{Kind: "dir", Path: fmt.Sprintf("sub%d.d", k)})
+			}
+		}
 		gcfg := randCfg(r)
 		gcfg.NumWorkers = r.Range(1, 8)
 		if i%6 == 5 {
@@ -167,7 +173,16 @@ func ProcessSchedPart(run *report.Run, st *Setup, n int, kinds map[string]bool) 
 							}
 						}
 					}
-					if len(ds) > len(dependants) {
+					hasSub := func(x *spec.Target) bool {
+						for _, o := range x.AllOuts() {
+							if o.Kind == "dir" && strings.HasPrefix(o.Path, "sub") {
+								return true
+							}
+						}
+						return false
+					}
+					// prefer a dependency whose directory output has only sub-directories at the top
+					if len(ds) >= 2 && (dep == nil || (hasSub(t) && !hasSub(dep)) || (hasSub(t) == hasSub(dep) && len(ds) > len(dependants))) {
 						dep, dependants = t, ds
 					}
 				}
@@ -181,7 +196,7 @@ func ProcessSchedPart(run *report.Run, st *Setup, n int, kinds map[string]bool) 
 					return "command-change"
 				})
 				env.WipeOutputs()
-				plan := "file.load.*=delay:40000;dir.load.*=delay:40000"
+				plan := "file.load.*=delay:40000;dir.load.*=delay:40000;dir.load.create=delay:250000"
 				env.Logf("GROG_VERIF_PLAN=%s", plan)
 				p, obs, vs, err := env.Step(BuildOpts{Env: []string{"GROG_VERIF_PLAN=" + plan}}, cfg, "shared-dependency-restore", false)
 				if err != nil {
